@@ -4,7 +4,7 @@
     text after the last newline being the last (possibly empty) line; [count_nl]; [after_nl c k] = length
     of the first k lines; [lines_between c a b] = concatenation of lines a..b-1 (1-based, clamped). *)
 From ZV Require Import Lib.Base Lib.GoSearch Lib.RuneCount Model.Lines
-  Proofs.LinesBasic Proofs.RuneCountProofs Proofs.LinesMatch Proofs.LinesChunk.
+  Proofs.LinesBasic Proofs.RuneCountProofs Proofs.LinesMatch Proofs.LinesMultiline Proofs.LinesChunk.
 From Coq Require Import Sorting.Sorted.
 
 (** sort.Search as used by atOffset (and runeOffsetMap.lookup): least index of a monotone predicate *)
@@ -80,6 +80,35 @@ Proof.
   simpl. repeat split; auto. rewrite map_map. reflexivity.
 Qed.
 Print Assumptions C03_filename_match_text.
+
+(** the multi-line extension loop of fillContentMatches
+      for nextLineStart < len(data) && endMatch > nextLineStart { next := bytes.IndexByte(data[nextLineStart:], '\n'); ... }
+    in closed form, for every content, every line number and every in-bounds end offset: nothing happens when the
+    last candidate of the line ends inside the line; otherwise LineEnd moves to the start of the line after the one
+    that holds the candidate's last byte (so Line consists of whole lines and contains the whole candidate).
+    Fuel S |c| of the model's loop is proved sufficient. *)
+Theorem C03_extend_line_spec : forall c num endm, (1 <= num)%Z -> endm <= length c ->
+  extend_line (S (length c)) c (line_start (newlines_of c) (num + 1)) endm =
+  if endm <=? line_start (newlines_of c) (num + 1) then line_start (newlines_of c) (num + 1)
+  else line_start (newlines_of c) (at_offset (newlines_of c) (endm - 1) + 1).
+Proof. exact extend_line_spec. Qed.
+Print Assumptions C03_extend_line_spec.
+
+(** fillContentMatches on candidates that MAY SPAN LINES (non-empty, in bounds, sorted, non-overlapping; the path that
+    is dead after breakMatchesOnNewlines but is what the function does on its own): it succeeds (neither the
+    "infinite loop" log.Panicf nor a slice panic); each LineMatch satisfies [lm_ok_ml]: LineNumber/LineStart = the line
+    of its first fragment, Line = the WHOLE lines LineNumber..nl = content[LineStart:LineEnd) where nl is the line of
+    the last byte of its last fragment, every fragment starts in line LineNumber and ends inside Line, Before/After
+    are counted from LineNumber (so After repeats lines 2.. of an extended Line — the behaviour of the code, stated
+    as it is); line numbers strictly increase; the fragments are exactly the candidates in order. *)
+Theorem C03_line_match_multiline : forall c ctx, (0 <= ctx)%Z -> forall ms,
+  Forall (cand_ok c) ms -> disjoint_sorted ms ->
+  exists res, fill_content_matches (newlines_of c) c ctx ms = Ok res /\
+    Forall (lm_ok_ml c ctx) res /\
+    StronglySorted (fun a b => (lm_num a < lm_num b)%Z) res /\
+    flat_map (fun lm => map frag_cand (lm_frags lm)) res = map cand_key ms.
+Proof. exact fill_content_matches_multiline. Qed.
+Print Assumptions C03_line_match_multiline.
 
 (** chunk mode: for content candidates sorted as by gatherMatches, in bounds and on rune boundaries,
     fillContentChunkMatches succeeds and returns exactly [chunk_spec] of every chunk: Content = the whole lines
@@ -157,6 +186,20 @@ Example ex_line_result :
          ([195; 169; 120; 10], 3, 7, 2%Z, [97; 98; 10], [10], false, [(0%Z, 3, 2); (2%Z, 5, 1)]);
          ([121; 122], 8, 10, 4%Z, [10], [], false, [(0%Z, 8, 2)]) ]%N.
 Proof. vm_compute. reflexivity. Qed.
+(* the multi-line path: ex_ms handed to fillContentMatches WITHOUT newline splitting.  "b\né" starts in line 1 and ends
+   in line 2: Line = lines 1-2 (LineEnd 7), After (ctx 1) = line 2 again; "x" starts at 5 >= the original next line
+   start 3, so it opens a LineMatch of its own for line 2 *)
+Example ex_hyp_multiline : Forall (cand_ok ex_c) ex_ms /\ disjoint_sorted ex_ms.
+Proof. split; repeat constructor. Qed.
+Example ex_multiline_result :
+  option_map (map lm_out) (match fill_content_matches (newlines_of ex_c) ex_c 1%Z ex_ms with Ok r => Some r | _ => None end) =
+  Some [ ([97; 98; 10; 195; 169; 120; 10], 0, 7, 1%Z, [], [195; 169; 120; 10], false, [(1%Z, 1, 4)]);
+         ([195; 169; 120; 10], 3, 7, 2%Z, [97; 98; 10], [10], false, [(2%Z, 5, 1)]);
+         ([121; 122], 8, 10, 4%Z, [10], [], false, [(0%Z, 8, 2)]) ]%N.
+Proof. vm_compute. reflexivity. Qed.
+Example ex_extend : extend_line (S (length ex_c)) ex_c 3 5 = 7 /\ extend_line (S (length ex_c)) ex_c 3 8 = 8 /\
+  extend_line (S (length ex_c)) ex_c 3 3 = 3 /\ extend_line (S (length ex_c)) ex_c 8 10 = 10.
+Proof. vm_compute. repeat split; reflexivity. Qed.
 Example ex_hyp_chunk : Forall (fun m => c_fn m = false) ex_ms /\ is_sorted_by cand_less ex_ms = true /\
   Forall (chunk_cand_ok ex_c) ex_ms.
 Proof.
